@@ -265,6 +265,11 @@ def scan_for_exceptions(obj: Any, seen: set[int], path: str = "context") -> None
     if isinstance(obj, BaseException):
         raise SecurityError(f"Exception instance forbidden at {path}: {type(obj)}")
 
+    if isinstance(obj, str | bytes):
+        # NOTE: iterating a str yields strs, and only the one-character strs
+        #   of Latin-1 are shared objects: any other character recursed for ever
+        return
+
     if isinstance(obj, Mapping | Iterable):
         seen.add(obj_id)
         if isinstance(obj, Mapping):
